@@ -228,15 +228,17 @@ def run_case(ctx, case):
 
 def run_enc(ctx, rng, ce, alg, mode):
     bs, keysizes = SYM[alg]
+    # a stream cipher has no block cipher mode: whatever mode is stated with RC4 is without meaning (and without a tag)
+    is_gcm = mode == BM.GCM and alg != CA.RC4
     lens = sorted(set([0, 1, max(0, bs - 1), bs, bs + 1, 2 * bs, 37, 1000])) if bs else [0, 1, 7, 64, 1000]
     pads = [None, PM.PKCS5, PM.ANSI_X923, PM.NONE, PM.ZEROS]
     for ks, n, padm, iv_given in itertools.product(keysizes, lens, pads, (True, False)):
         key = rb(rng, ks)
         data = rb(rng, n)
-        ivlen = 12 if mode == BM.GCM else bs
+        ivlen = 12 if is_gcm else bs
         iv = rb(rng, ivlen) if iv_given and mode not in (BM.ECB,) and alg != CA.RC4 else None
-        aad = rng.choice((None, b'', rb(rng, 9))) if mode == BM.GCM else None
-        tag_len = rng.choice((16, 12, 16)) if mode == BM.GCM else None
+        aad = rng.choice((None, b'', rb(rng, 9))) if is_gcm else None
+        tag_len = rng.choice((16, 12, 16)) if is_gcm else None
         ctx.ev()
         key_ = 'encrypt|%s|%s|%s' % (alg.name, mode.name, padm.name if padm else 'none')
         try:
@@ -256,7 +258,7 @@ def run_enc(ctx, rng, ce, alg, mode):
             continue
         if iv is None and used_iv is not None:
             ctx.count('fresh_values')
-            if len(used_iv) != (12 if False else (bs if mode != BM.GCM else len(used_iv))):
+            if len(used_iv) != (12 if False else (bs if not is_gcm else len(used_iv))):
                 ctx.violation(key_ + '|iv-length', 'generated IV has %d bytes for block size %d' % (len(used_iv), bs), detail)
         # reference
         try:
@@ -278,7 +280,7 @@ def run_enc(ctx, rng, ce, alg, mode):
             ctx.violation(key_ + '|ciphertext', 'ciphertext differs from an independent %s/%s encryption (%d vs %d bytes)'
                           % (alg.name, mode.name, len(ct), len(rct)), detail)
             continue
-        if mode == BM.GCM:
+        if is_gcm:
             if res.get('auth_tag') != rtag[:tag_len]:
                 ctx.violation(key_ + '|tag', 'GCM tag differs from the reference (%s vs %s)' % (
                     (res.get('auth_tag') or b'').hex(), rtag[:tag_len].hex()), detail)
@@ -293,7 +295,7 @@ def run_enc(ctx, rng, ce, alg, mode):
         if back != data:
             ctx.violation(key_ + '|roundtrip', 'Decrypt(Encrypt(m)) != m (%d -> %d bytes)' % (len(data), len(back)), detail)
         # authenticated modes reject modifications
-        if mode == BM.GCM:
+        if is_gcm:
             for what in (('ct', 'tag', 'aad', 'nonce') if len(ct) > 0 else ('tag', 'aad', 'nonce')):
                 ct2, tag2, aad2 = ct, res.get('auth_tag'), aad
                 if what == 'ct':
